@@ -123,6 +123,7 @@ type vpWorld struct {
 	scopeFrom      map[int]context.Context // scope -> the context it was created from (nil: the provider's own)
 	preFail        int   // constructor that fails during the preliminary Build of a rebuild scenario only (0 = none)
 	preFailed      bool
+	preFailedOnce  bool // some preliminary Build of this scenario failed in a constructor
 	preFailWanted  bool // the scenario asks for a constructor failure in the preliminary Build
 	injErr         []int // constructors that returned an injected error during the current API call
 	injPanic       []int
@@ -522,6 +523,7 @@ func (w *vpWorld) makeConstructor(r *vpReg) any {
 		}
 		if w.preFail == ctor && r.withErr { // fails in the preliminary Build only: the later Build must not remember it
 			w.preFailed = true
+			w.preFailedOnce = true
 			w.injErr = append(w.injErr, ctor)
 			res := make([]reflect.Value, len(out))
 			for i, t := range out {
@@ -849,7 +851,9 @@ func (r *vpRun) newWorld(rng *rand.Rand) *vpWorld {
 // harness's own bookkeeping (`removed` outputs are no identities).
 func (r *vpRun) removeAndReplace(w *vpWorld) {
 	rng := w.rng
-	if rng.Intn(4) != 0 {
+	// (always after a preliminary Build that failed in a constructor: what that Build left in the collection must not
+	// bring a removed registration back)
+	if rng.Intn(4) != 0 && !w.preFailedOnce {
 		return
 	}
 	type cand struct {
@@ -2476,6 +2480,13 @@ func (w *vpWorld) generateFaults(o vpGenOpts) {
 		for k := rng.Intn(4); k > 0; k-- {
 			reg := w.regs[rng.Intn(len(w.regs))]
 			w.cbeh[[2]int{reg.idx + 1, 1 + rng.Intn(3)}] = true
+		}
+		// a multi-output constructor (result object, several return values) that returns an error at one of its first
+		// invocations - and is asked again later (a failed attempt leaves nothing behind, C15)
+		for _, reg := range w.regs {
+			if (reg.form == "ro" || reg.form == "multi") && reg.withErr && rng.Intn(2) == 0 {
+				w.beh[[2]int{reg.idx + 1, 1 + rng.Intn(2)}] = "err"
+			}
 		}
 		// a result-object constructor that leaves one field nil at some invocation (any lifetime: D15 is repaired,
 		// the identity of the nil field is remembered as constructed-without-value)
@@ -4165,6 +4176,21 @@ type vqSvc struct {
 	sc0 Scope
 }
 
+type vqEmbCtx struct {
+	In
+	context.Context
+	D *vqDep
+}
+type vqEmbSc struct {
+	In
+	Scope
+}
+type vqE1 struct {
+	ctx context.Context
+	d   *vqDep
+}
+type vqE2 struct{ sc Scope }
+
 func (r *vpRun) pointerParamObject(rng *rand.Rand) {
 	w := r.newWorld(rng)
 	defer r.emit("p verdict", "ok")
@@ -4173,6 +4199,13 @@ func (r *vpRun) pointerParamObject(rng *rand.Rand) {
 	life := []Lifetime{Scoped, Transient}[rng.Intn(2)]
 	e1 := c.(*collection).addService(func() *vqDep { n++; return &vqDep{n: n} }, life)
 	e2 := c.(*collection).addService(func(in *vqIn) *vqSvc { return &vqSvc{in: in, d0: in.D, sc0: in.Sc} }, life)
+	// built-ins as EMBEDDED fields of a parameter object
+	if e := c.(*collection).addService(func(in vqEmbCtx) *vqE1 { return &vqE1{ctx: in.Context, d: in.D} }, life); e != nil && e2 == nil {
+		e2 = e
+	}
+	if e := c.(*collection).addService(func(in vqEmbSc) *vqE2 { return &vqE2{sc: in.Scope} }, life); e != nil && e2 == nil {
+		e2 = e
+	}
 	if e1 != nil || e2 != nil {
 		w.fail("C17", "pointer-parameter-object scenario: a valid registration was rejected: %v %v", e1, e2)
 		return
@@ -4204,6 +4237,18 @@ func (r *vpRun) pointerParamObject(rng *rand.Rand) {
 		}
 		svcs = append(svcs, s)
 		scs = append(scs, sc)
+		if x, e := Resolve[*vqE1](sc); e != nil || x == nil || x.d == nil {
+			w.fail("C18,C04", "pointer-parameter-object scenario: a constructor whose parameter object embeds context.Context does not resolve properly: %v", e)
+		} else if x.ctx == nil {
+			w.fail("C18", "pointer-parameter-object scenario: context.Context embedded in a parameter object was left nil")
+		} else if fc, fe := FromContext(x.ctx); fe != nil || fc != sc {
+			w.fail("C18", "pointer-parameter-object scenario: the context.Context embedded in a parameter object is not the resolving scope's context (%v)", fe)
+		}
+		if x, e := Resolve[*vqE2](sc); e != nil || x == nil {
+			w.fail("C18,C04", "pointer-parameter-object scenario: a constructor whose parameter object embeds Scope does not resolve: %v", e)
+		} else if x.sc != sc {
+			w.fail("C18", "pointer-parameter-object scenario: the Scope embedded in a parameter object is %v, not the resolving scope", x.sc)
+		}
 		if rng.Intn(3) == 0 {
 			sc.Close()
 		}
@@ -4692,6 +4737,17 @@ func (r *vpRun) releasedMemory(rng *rand.Rand) {
 	longLived, cancel := context.WithCancel(context.Background())
 	defer cancel()
 	useCtx := rng.Intn(2) == 0
+	// half of the time the scopes are not closed one by one but by the Close of a scope created for them
+	viaOwner := rng.Intn(2) == 0
+	var group Scope
+	if viaOwner {
+		g, e := owner.CreateScope(nil)
+		if e != nil {
+			return
+		}
+		group, owner = g, g
+		what = "a scope that was then closed (closing them with it), itself created under " + what
+	}
 	const N = 40
 	var weaks []weak.Pointer[scope]
 	armed := 0
@@ -4709,7 +4765,13 @@ func (r *vpRun) releasedMemory(rng *rand.Rand) {
 			weaks = append(weaks, weak.Make(si))
 			armed++
 		}
-		sc.Close()
+		if !viaOwner {
+			sc.Close()
+		}
+	}
+	if group != nil {
+		group.Close()
+		group, owner = nil, nil
 	}
 	if armed < N/2 {
 		return // the scope handle is not a plain pointer any more: nothing to measure this way
@@ -4729,9 +4791,96 @@ func (r *vpRun) releasedMemory(rng *rand.Rand) {
 		time.Sleep(5 * time.Millisecond)
 	}
 	if got := released(); got < armed*9/10 {
-		w.fail("C14", "released-memory scenario: %d scopes were created under %s and closed one by one; after garbage collection only %d of them were released - the others are still referenced although they are closed (context given: %v)", armed, what, got, useCtx)
+		w.fail("C14", "released-memory scenario: %d scopes were created under %s and closed; after garbage collection only %d of them were released - the others are still referenced although they are closed (context given: %v)", armed, what, got, useCtx)
 	}
 	r.stats["released_memory"]++
+}
+
+// nilThenValue (C15, C02): a single-return constructor with an interface result yields nil once (an error for the
+// caller) and a value afterwards. The failed attempt leaves nothing behind in the scope: the next resolution - direct
+// or through a dependant - runs the constructor again and behaves like a first attempt.
+type vnI interface{ vnMark() }
+type vnImpl struct{ n int }
+
+func (*vnImpl) vnMark() {}
+
+type vnUser struct{ i vnI }
+
+func (r *vpRun) nilThenValue(rng *rand.Rand) {
+	w := r.newWorld(rng)
+	defer r.emit("p verdict", "ok")
+	life := []Lifetime{Scoped, Transient}[rng.Intn(2)]
+	c := NewCollection().(*collection)
+	runs := 0
+	failAt := 1 + rng.Intn(2)
+	if life == Scoped {
+		failAt = 1 // a successful first attempt is cached: the constructor never runs a second time
+	}
+	e1 := c.addService(func() vnI {
+		runs++
+		if runs == failAt {
+			return nil
+		}
+		return &vnImpl{n: runs}
+	}, life)
+	e2 := c.addService(func(i vnI) *vnUser { return &vnUser{i: i} }, life)
+	if e1 != nil || e2 != nil {
+		w.fail("C17", "nil-then-value scenario: a valid registration was rejected: %v %v", e1, e2)
+		return
+	}
+	var p Provider
+	var err error
+	if guard(w, "Build", func() { p, err = c.Build() }) || err != nil {
+		w.fail("C08", "nil-then-value scenario: Build failed: %v", err)
+		return
+	}
+	defer p.Close()
+	sc, e := p.CreateScope(nil)
+	if e != nil {
+		return
+	}
+	viaUser := rng.Intn(2) == 0
+	attempt := func() (vnI, error) {
+		if viaUser {
+			u, e := Resolve[*vnUser](sc)
+			if e != nil {
+				return nil, e
+			}
+			return u.i, nil
+		}
+		return Resolve[vnI](sc)
+	}
+	for k := 1; k <= 3; k++ {
+		before := runs
+		var v vnI
+		var e error
+		if guard(w, "Resolve", func() { v, e = attempt() }) {
+			return
+		}
+		switch {
+		case runs == before: // no constructor run: only a cache hit of an earlier successful attempt explains it
+			if e != nil || v == nil || life != Scoped {
+				w.fail("C15,C02", "nil-then-value scenario: attempt %d did not run the constructor and returned (%v, %v): a failed attempt was remembered (the constructor ran %d times in all, its run #%d returned nil)", k, v, e, runs, failAt)
+				return
+			}
+		case runs == before+1 && runs == failAt:
+			if e == nil {
+				w.fail("C15,C04", "nil-then-value scenario: the constructor returned a nil interface value and the resolution reported no error (value %v)", v)
+			}
+		case runs == before+1:
+			if e != nil || v == nil {
+				w.fail("C15,C02", "nil-then-value scenario: attempt %d ran the constructor, which returned a value, and the resolution failed: %v", k, e)
+				return
+			}
+		default:
+			w.fail("C02,C03", "nil-then-value scenario: one resolution ran the constructor %d times", runs-before)
+			return
+		}
+	}
+	if runs < failAt {
+		w.fail("C15,C02", "nil-then-value scenario: three attempts, the constructor ran %d times", runs)
+	}
+	r.stats["nil_then_value"]++
 }
 
 func (r *vpRun) watched(name string, f func()) (hung bool) {
@@ -4867,6 +5016,11 @@ func TestVerifCore(t *testing.T) {
 				break
 			}
 			continue
+		}
+		if it%50 == 4 {
+			if r.watched("nilThenValue", func() { r.nilThenValue(rngX) }) {
+				break
+			}
 		}
 		if it%50 == 2 {
 			if r.watched("releasedMemory", func() { r.releasedMemory(rngX) }) {
